@@ -217,13 +217,13 @@ macro_rules! rec {
 }
 
 rec!("Vector1", Vector1, [f32, f64, i8, i16, i32, i64, u8, u16, u32, u64], { x: [] }, [0]);
-rec!("Vector2", Vector2, [f32, f64, i8, i16, i32, i64, u8, u16, u32, u64, isize, usize, i128, u128], { x: [], y: [] }, [0, 0]);
-rec!("Vector3", Vector3, [f32, f64, i8, i16, i32, i64, u8, u16, u32, u64, isize, usize, i128, u128], { x: [], y: [], z: [] }, [0, 0, 0]);
-rec!("Vector4", Vector4, [f32, f64, i8, i16, i32, i64, u8, u16, u32, u64], { x: [], y: [], z: [], w: [] }, [0, 0, 0, 0]);
+rec!("Vector2", Vector2, [f32, f64, i8, i16, i32, i64, u8, u16, u32, u64, isize, usize, i128, u128, Rad<f32>], { x: [], y: [] }, [0, 0]);
+rec!("Vector3", Vector3, [f32, f64, i8, i16, i32, i64, u8, u16, u32, u64, isize, usize, i128, u128, Rad<f32>, Deg<f64>], { x: [], y: [], z: [] }, [0, 0, 0]);
+rec!("Vector4", Vector4, [f32, f64, i8, i16, i32, i64, u8, u16, u32, u64, Rad<f64>], { x: [], y: [], z: [], w: [] }, [0, 0, 0, 0]);
 rec!("Point1", Point1, [f32, f64, i8, i16, i32, i64, u8, u16, u32, u64], { x: [] }, [0]);
-rec!("Point2", Point2, [f32, f64, i8, i16, i32, i64, u8, u16, u32, u64], { x: [], y: [] }, [0, 0]);
+rec!("Point2", Point2, [f32, f64, i8, i16, i32, i64, u8, u16, u32, u64, Deg<f32>], { x: [], y: [] }, [0, 0]);
 rec!("Point3", Point3, [f32, f64, i8, i16, i32, i64, u8, u16, u32, u64, isize, usize, i128, u128], { x: [], y: [], z: [] }, [0, 0, 0]);
-rec!("Matrix2", Matrix2, [f32, f64, i32, i64, isize, u128], { x: [Vector2], y: [Vector2] }, [1, 0, 0, 1]);
+rec!("Matrix2", Matrix2, [f32, f64, i32, i64, isize, u128, Rad<f32>], { x: [Vector2], y: [Vector2] }, [1, 0, 0, 1]);
 rec!("Matrix3", Matrix3, [f32, f64, i32, i64], { x: [Vector3], y: [Vector3], z: [Vector3] }, [1, 0, 0, 0, 1, 0, 0, 0, 1]);
 rec!("Matrix4", Matrix4, [f32, f64, i32, i64], { x: [Vector4], y: [Vector4], z: [Vector4], w: [Vector4] }, [1, 0, 0, 0, 0, 1, 0, 0, 0, 0, 1, 0, 0, 0, 0, 1]);
 rec!("Quaternion", Quaternion, [f32, f64, i32, i64, usize, i128, u128], { v: [Vector3], s: [] }, [0, 0, 0, 1]);
